@@ -168,7 +168,7 @@ def c12(prop, tier, seed):
     R = Result(prop, tier, seed)
     exe = vplib.build("drv_seqs", ["utils", "structs"], ["drv_seqs.c"])
     quick = tier == "quick"
-    variants = [("queue", "d", 1, 0), ("stack", "d", 1, 0), ("list", "dc", 1, 1), ("list", "dp", 1, 0),
+    variants = [("queue", "d", 1, 0), ("stack", "d", 1, 0), ("list", "dc", 1, 1), ("list", "ds", 1, 2), ("list", "dp", 1, 0),
                 ("queue", "n", 0, 0), ("stack", "n", 0, 0), ("list", "nc", 0, 1), ("list", "np", 0, 0)]
     D = 6 if quick else 8
     budget = 400000 if quick else 30000000
